@@ -440,7 +440,7 @@ def havoc_locs(it, locs):
             if loc.name == 'printed':
                 h.ghost['printed'] = z3.Const(st.fresh_name('hv_printed'), SeqVal)
             else:
-                h.ghost[loc.name] = st.fresh('ghost_' + loc.name)
+                h.ghost[loc.name] = Val.i(z3.Int(st.fresh_name('ghost_' + loc.name)))
 
 
 def frame_obligations(it, before, after, locs, alloc_before, clause):
@@ -452,7 +452,7 @@ def frame_obligations(it, before, after, locs, alloc_before, clause):
             continue
         prev = before.ghost.get(name)
         if prev is None:
-            prev = z3.Const('G0_' + name, val.sort())
+            prev = z3.Const('G0_' + name, val.sort()) if val.sort() != Val else Val.i(z3.Int('G0_' + name))
         if not prev.eq(val):
             st.oblige(it.fn.qual, '%s[ghost:%s]' % (clause, name), 'frame', prev == val)
     keys = list(dict.fromkeys(list(before.arrs) + list(after.arrs)))
@@ -518,14 +518,18 @@ def bind_params(it, c, args, kwargs, params=None):
         extra = list(args[len(names):])
         env[params.vararg.arg] = V.mk_tuple([it.to_val(x) for x in extra])
     kwonly = [a.arg for a in params.kwonlyargs]
+    star = kwargs.pop('**', None) if isinstance(kwargs, dict) and '**' in kwargs else None
+    kwargs = dict(kwargs)
     for k, v in kwargs.items():
         if k in names or k in kwonly:
             env[k] = v
         elif params.kwarg is None:
             raise Unsupported('unexpected keyword %s for contract %s' % (k, c.name))
+    if star is not None and params.kwarg is None:
+        raise Unsupported('** argument for contract %s without a **kwargs parameter' % c.name)
     if params.kwarg is not None:
         extra = {k: v for k, v in kwargs.items() if k not in names and k not in kwonly}
-        env[params.kwarg.arg] = ('kwargs', extra)
+        env[params.kwarg.arg] = star if star is not None else ('kwargs', extra)
     defaults = params.defaults
     sp = Interp(it.st, c.glob, it.reg, it.fn, pure=True, env=env)
     for i, n in enumerate(names):
@@ -628,7 +632,8 @@ def exc_matches(it, exc, ecls):
     elif isinstance(ecls, PyConst) and isinstance(ecls.obj, tuple):
         classes = list(ecls.obj)
     else:
-        raise Unsupported('exception class in contract must be a constant')
+        from .pybuiltins import _class_list
+        classes = _class_list(it, ecls)
     return z3.Or(*[V.subclass(cls, z3.IntVal(V.cid_of(k))) for k in classes])
 
 
